@@ -152,6 +152,10 @@ def run(repo_dir, contract_modules, functions, lemmas=(), timeout_ms=20000, slow
                 index.append((name, kind, info, None))
             else:
                 key = len(sjobs)
+                if os.environ.get("VERIF_DUMP") and os.environ["VERIF_DUMP"] in name:
+                    os.makedirs("/tmp/vcdump", exist_ok=True)
+                    with open("/tmp/vcdump/%d.smt2" % key, "w") as f_:
+                        f_.write("; %s\n%s" % (name, txt))
                 t = slow_ms if any(s in name for s in slow) else timeout_ms
                 sjobs.append((key, txt, t, use_cvc5))
                 index.append((name, kind, info, key))
